@@ -5,6 +5,8 @@
 
 package originium
 
+import "github.com/B1NARY-GR0UP/originium/types"
+
 // VerifStop stops the two watermark goroutines of a closed DB (the engine
 // itself never stops them).
 func (db *DB) VerifStop() {
@@ -36,3 +38,75 @@ func (db *DB) VerifKill() {
 func (db *DB) VerifIdle() bool {
 	return len(db.flushC) == 0 && db.immutables.Len() == 0
 }
+
+// ---- level manager driver (C09, C10) and table audits
+
+// VerifLM is a levelManager over a directory with a chosen version-discard
+// watermark, detached from any running DB.
+type VerifLM struct {
+	lm *levelManager
+	db *DB
+}
+
+// VerifTable is the decoded content of one table file.
+type VerifTable struct {
+	Level, Idx int
+	Entries    []types.Entry
+}
+
+// VerifNewLM builds a level manager over dir. watermark > 0 is installed as the
+// oracle's read mark (the value discardAtOrBelow returns).
+func VerifNewLM(dir string, cfg Config, watermark uint64) *VerifLM {
+	_ = cfg.validate()
+	db := &DB{config: cfg, dir: dir, oracle: newOracle()}
+	if watermark > 0 {
+		db.oracle.readMark.Done(watermark)
+	}
+	return &VerifLM{lm: newLevelManager(db), db: db}
+}
+
+func (v *VerifLM) Watermark() uint64 { return v.db.oracle.discardAtOrBelow() }
+
+func (v *VerifLM) Flush(entries []types.Entry) error { return v.lm.flushToL0(entries) }
+
+func (v *VerifLM) Compact() { v.lm.checkAndCompact() }
+
+// Recover rebuilds the handles from the files into a fresh manager that
+// shares the watermark.
+func (v *VerifLM) Recover() (*VerifLM, int64) {
+	n := &VerifLM{lm: newLevelManager(v.db), db: v.db}
+	max := n.lm.recover()
+	return n, max
+}
+
+func (v *VerifLM) Lookup(key types.Key) (types.Entry, bool) { return v.lm.searchLowerBound(key) }
+
+func (v *VerifLM) Tables() []VerifTable { return v.lm.verifTables() }
+
+func (v *VerifLM) Stop() {
+	v.db.oracle.readMark.VerifStopNoWait()
+	v.db.oracle.commitMark.VerifStopNoWait()
+}
+
+func (lm *levelManager) verifTables() []VerifTable {
+	lm.mu.Lock()
+	defer lm.mu.Unlock()
+	var res []VerifTable
+	for level, tables := range lm.levels {
+		for e := tables.Front(); e != nil; e = e.Next() {
+			th := e.Value.(tableHandle)
+			data := lm.fetch(level, th.levelIdx, th.dataBlockIndex.DataBlock)
+			res = append(res, VerifTable{Level: level, Idx: th.levelIdx, Entries: data.Entries})
+		}
+	}
+	return res
+}
+
+// VerifTables decodes every table of a running DB (audit).
+func (db *DB) VerifTables() []VerifTable { return db.manager.verifTables() }
+
+// VerifLookup is the table-level lookup of a running DB (audit).
+func (db *DB) VerifLookup(key types.Key) (types.Entry, bool) { return db.manager.searchLowerBound(key) }
+
+// VerifWatermark is the version-discard watermark compaction would use now.
+func (db *DB) VerifWatermark() uint64 { return db.oracle.discardAtOrBelow() }
